@@ -132,10 +132,17 @@ class TranslateNode(Node, TranslatableTag):
 
     def resolve_translations(self, context: RenderContext) -> Translations:
         """Return a translations object from the current render context."""
-        return cast(
-            Translations,
-            context.resolve(self.translations_var, self.default_translations),
+        translations = context.resolve(
+            self.translations_var, self.default_translations
         )
+        if not hasattr(translations, "gettext"):
+            # A template variable that happens to be called `translations`.
+            raise LiquidTypeError(
+                f"expected a translations object at {self.translations_var!r}, "
+                f"found {translations.__class__.__name__}",
+                token=self.token,
+            )
+        return cast(Translations, translations)
 
     def resolve_count(
         self,
